@@ -546,3 +546,78 @@ def k5_runtime_error(res, tier):
                 r.checks.remove((lab, ok, info))
     _panics(res, results, 'C04.K5.runtime_error')
     summarize_paths(res, e, results, lambda r: r.info if isinstance(r.info, dict) else None, key_prefix='C04.K5:', unwind_ok=False)
+
+
+# ---------------------------------------------------------------------------------------------- K1b depth at a handler's label
+F41_SRC = ('fn g() { raise Error("first"); }\nfn f() {\n  try {\n    let a = g();\n    return a;\n  } catch e: Error {\n    print("caught first");\n  }\n  let x = 5;\n  let y = 6;\n'
+           '  try {\n    let z = [1, g()];\n  } catch e: Error {\n    print(e.message);\n    print(x);\n    print(y);\n  }\n  return x;\n}\nprint(f());\n')
+F41_REPLAY = dict(kind='lay', source=F41_SRC, expect_stdout='caught first\nfirst\n5\n6\n5\n')
+
+
+@obligation('C04.K1.handler_label_depth', 'C04', programs=('vm',), also=('C06',))
+def k1_handler_label(res, tier):
+    """apply_stack_effects on try skeletons whose body does not fall through (it ends in Return / Raise / Jump with k values still on
+    the stack, the dead code behind it already removed): a catch label is entered only by unwinding, with the depth its PushHandler
+    recorded (Fiber::stack_unwind, C04.K2), so a second PushHandler behind that label must record exactly that depth plus what the
+    catch body pushed since"""
+    P = get_program('vm')
+    f = P.lookup('compiler::peephole::apply_stack_effects')
+    INS = 'byte_code::SymbolicByteCode'
+    ed = P.enum_def(INS)
+    lab_sd = 'byte_code::Label'
+    res.bounds = {'values live at the exit of the try body': '0..3', 'exit': 'Return, Raise, Jump', 'values pushed in the catch body before the next try': '0..2'}
+    res.assumptions = ['instruction effects equal the VM behaviour (C06.K1)', 'the unwinder enters a handler with the recorded depth (C04.K2)']
+    e = Engine(P, loop_bound=40, timeout_s=120)
+    _fun_builder_models(e, P)
+
+    def ins(name, *ops):
+        vi = ed.vindex[name]
+        if not ops:
+            return EnumV(INS, vi, None, None, ed)
+        return EnumV(INS, vi, {name: {i: Cell(o) for i, o in enumerate(ops)}}, None, ed)
+
+    def label(n):
+        return Struct(lab_sd, {0: Cell(bv(n, 32))}, None)
+
+    def path(e):
+        kv = z3.BitVec('live_values', 64)
+        e.add_constraint(z3.ULE(kv, 3))
+        k = e.concretize(kv, [0, 1, 2, 3])
+        jv = z3.BitVec('catch_pushes', 64)
+        e.add_constraint(z3.ULE(jv, 2))
+        j = e.concretize(jv, [0, 1, 2])
+        xv = z3.BitVec('exit_kind', 64)
+        e.add_constraint(z3.ULE(xv, 2))
+        x = e.concretize(xv, [0, 1, 2])
+        prog = [ins('PushHandler', Struct('()', {0: Cell(bv(0, 16)), 1: Cell(label(0))}, None))]
+        prog += [ins('Nil')] * (k + 1)                       # k live locals / temporaries and the value that is returned / raised
+        if x == 0:
+            prog += [ins('PopHandler'), ins('Return')]
+        elif x == 1:
+            prog += [ins('Raise')]
+        else:
+            prog += [ins('Drop'), ins('PopHandler'), ins('Jump', label(2))]      # e.g. break / continue out of the try with k values live
+        prog += [ins('Label', label(0))]                     # catch entry: only reachable by unwinding
+        prog += [ins('Nil')] * j                             # what the catch body has pushed so far
+        prog += [ins('PushHandler', Struct('()', {0: Cell(bv(0, 16)), 1: Cell(label(1))}, None)), ins('PopHandler'), ins('Label', label(1)), ins('Label', label(2))]
+        prog = [e.copy_value(p) for p in prog]
+        seq = ConcSeq(INS, [Cell(p) for p in prog])
+        fbuild = e.fresh('laythe_core::object::FunBuilder', 'fun_builder')
+        arity = _arity_params(e, P, fbuild)
+        e.call(f, [Ref(Cell(fbuild)), SliceRef(seq, bv(0, 64), bv(len(prog), 64))])
+        phs = [c.get(e) for c in seq.cells if c.get(e).tag == ed.vindex['PushHandler']]
+        d = [p.field(e, 'PushHandler', 0, '(u16, byte_code::Label)').get(e).field(e, 0, 'u16').get(e) for p in phs]
+        e.check(z3.ZeroExt(48, d[0]) == 1 + arity, 'the first handler records the entry depth')
+        e.check(z3.ZeroExt(48, d[1]) == 1 + arity + j, 'a handler registered inside a catch block records the depth the unwinder established plus what the catch body pushed',
+                {'live_at_exit_of_try_body': k, 'exit': ['Return', 'Raise', 'Jump'][x], 'catch_pushes': j, 'recorded': str(z3.simplify(d[1]))})
+        return {'live': k, 'exit': ['Return', 'Raise', 'Jump'][x], 'catch_pushes': j}
+    results = e.explore(path)
+    for r in results:
+        for lab, ok, info in list(r.checks):
+            if not ok and 'inside a catch block' in lab:
+                res.fail('C04.K1:depth at a catch label is inherited from the dead end of the try body',
+                         'apply_stack_effects enters a catch label with the simulated depth of the instruction in front of it when no jump targets the label: after a '
+                         'try body that ends in return / raise with locals live the depth is too high and later handlers record slot depths above the real stack', info, replay=F41_REPLAY)
+                r.checks.remove((lab, ok, info))
+    _panics(res, results, 'C04.K1.handler_label')
+    summarize_paths(res, e, results, lambda r: r.info if isinstance(r.info, dict) else None, key_prefix='C04.K1b:', unwind_ok=False)
